@@ -24,6 +24,20 @@ func (a *Accounting) VerifUnpaid(peer boson.Address) (v *big.Int, ok bool) {
 	return new(big.Int).Set(p.unPaidTraffic), true
 }
 
+// VerifUnpaidPtr returns the *big.Int currently stored in the peer's unPaidTraffic
+// field (the object itself, not a copy), read under the peer lock.
+func (a *Accounting) VerifUnpaidPtr(peer boson.Address) (v *big.Int, ok bool) {
+	a.accountingPeersMu.Lock()
+	p, ok := a.accountingPeers[peer.String()]
+	a.accountingPeersMu.Unlock()
+	if !ok {
+		return nil, false
+	}
+	p.lock.Lock()
+	defer p.lock.Unlock()
+	return p.unPaidTraffic, true
+}
+
 // VerifPeerLockHeld probes (TryLock) whether the per-peer lock is held right
 // now by some goroutine (exists=false: no accountingPeer yet).
 func (a *Accounting) VerifPeerLockHeld(peer boson.Address) (held, exists bool) {
